@@ -567,3 +567,8 @@ _run_c16 = run
 def run(rep, programs):  # noqa: F811
     _run_c16(rep, programs)
     r_policy_order(rep, programs["core"])
+
+
+EXPLANATION = EXPLANATION + (
+    " R-POLICY-ORDER: Policy's Ord/PartialOrd are the derived structural order, or a hand-written one without a lossy operation on the Match priority (otherwise undecided)."
+)
